@@ -13,7 +13,8 @@ CLAIMS = {
  "C01": ("Theorems (Props/C01.v): for every list of sections with well-formed headers from which the model builds a machine and every "
          "interval, each returned pair is contiguous and equal-length and its i-th reference base is aligned by some block of some chain to "
          "its i-th query base (block meaning spelt out with forward = size-1-local on '-'); no bound on chains, blocks or coordinates "
-         "(u64 range, checked arithmetic). The machine built from a stream of line reads is the machine of the parsed sections. Tied to "
+         "(u64 range, checked arithmetic). The machine built from a stream of line reads is the machine of the parsed sections; C01_end_to_end composes the "
+         "two from the source (bytes under any chunk schedule) to the base pairings, with C02's multiset equality in the same statement. Tied to "
          "the code by model/implementation comparison on generated files x boundary intervals and a Python oracle of the alignment relation.",
          "DESIGN.md 5 (C01), 4.2 (L2-L5)"),
  "C02": ("Theorems (Props/C02.v): liftover returns a value and the multiset of returned base pairings equals, pairing by pairing, the number "
@@ -45,12 +46,15 @@ CLAIMS = {
          "ends with at most records+1 items; after an error the step-through yields nothing; plus _refuted witnesses that the pre-fix code was "
          "unbounded. Tied to the code by capped drains of all three iterators on generated streams/sections (incl. streams ending inside a "
          "section, sections not adding up or out of bounds).", "DESIGN.md 5 (C07)"),
- "C08": ("Five theorems (Props/C08.v): C08_truncation - for every byte string from which a machine is built and every cut offset k "
+ "C08": ("Seven theorems (Props/C08.v): C08_truncation - for every byte string from which a machine is built and every cut offset k "
          "(inside a field, a number, a terminator, anywhere) building from the first k bytes fails or yields exactly the machine of a "
          "whole-chain prefix of the file's sections (proved through the reads of a truncated byte string, the parse of a proper prefix of a "
          "line, numeral prefixes and the irrelevance of trailing empty blocks); the same for whole lines; a hard read failure anywhere refuses "
-         "the file and a failure at any fill_buf of any chunk schedule reaches the stream of reads (C08_hard_fault_schedule); inserting Interrupted errors in any fault-free chunk schedule changes nothing. Tied to the code by cutting generated files "
-         "at every byte offset and injecting faults at every fill_buf index.", "DESIGN.md 5 (C08), 5A"),
+         "the file and a failure at any fill_buf of any chunk schedule reaches the stream of reads (C08_hard_fault_schedule); inserting Interrupted errors in any fault-free chunk schedule changes nothing; "
+         "C08_fault_reads / C08_hard_fault_is_io: the reads of any schedule that delivers a prefix of a byte string and then fails hard are the reads "
+         "of the whole for the lines completed so far followed by the I/O error of the read in progress, and if the whole would have given a machine "
+         "the build returns exactly that I/O error. Tied to the code by cutting generated files "
+         "at every byte offset and injecting faults of four kinds at every fill_buf index (the oracle demands the I/O error).", "DESIGN.md 5 (C08), 5A"),
  "C09": ("Three theorems (Props/C09.v), corollaries of the multiset theorem: for every file, interval and cut position the base pairings of the "
          "whole are the multiset union of those of the two parts; a base maps identically through any two intervals containing it; every "
          "returned reference interval lies inside the requested one. Tied to the code on splits at block boundaries, inside gaps, at the ends, and "
